@@ -8,7 +8,7 @@ ROOT = os.path.dirname(os.path.dirname(os.path.abspath(__file__)))
 
 # id -> (level category, technique, level text, level note, design section)
 T = {
- "C01": ("model_checking", "SMT (z3) over a token-level PEG/CFG encoding generated from the live pyparsing grammar; CrossHair symbolic execution of a render/parse/project round trip",
+ "C01": ("model_checking", "SMT (z3) over a token-level PEG/CFG encoding generated from the live pyparsing grammar, compared with a z3 encoding of an independent reference grammar (every well-formed token string is accepted); CrossHair symbolic execution of a render/parse/project round trip",
          "Bounded: every token string up to N tokens over the grammar's own vocabulary (choice determinism), and every declaration shape in the stated descriptor bounds (tree faithfulness), decided by the solver; counterexamples are replayed on the real parser.",
          "Trusted: pyparsing leaf matching as tabulated by calling the real leaf objects; the hand-written reference recogniser and renderer in /verif; identifier spellings limited to exemplars.", "3/C01"),
  "C02": ("model_checking", "CrossHair (z3) symbolic execution of the real template_instantiator functions with symbolic identifier strings, compared with a reference substitution",
@@ -25,7 +25,7 @@ T = {
          "Trusted: output reader in /verif.", "3/C05"),
  "C06": ("model_checking", "CrossHair: symbolic default masks through _expand_default_arguments; solver-enumerated (role, arity, mask, passing mode, return shape) through the MATLAB generator against a marshalling table",
          "Bounded over arity <= 4, all masks, the listed passing modes and return shapes.", "Trusted: reference marshalling table transcribed from the property and matlab.h.", "3/C06"),
- "C07": ("model_checking", "SMT (z3) queries over the grammar encoding (total consumption, bracket balance, token accounting); CrossHair-enumerated corruptions with an in-memory file-system recorder",
+ "C07": ("model_checking", "SMT (z3) queries over the grammar encoding (total consumption, bracket balance, token accounting, inclusion in a z3-encoded independent reference grammar); CrossHair-enumerated corruptions with an in-memory file-system recorder",
          "Bounded: all token strings up to N tokens; all single-token corruptions of the harness inputs; both generators and both scripts.",
          "Trusted: leaf tabulation; recorder stubs for open/os.makedirs. Termination is observed, not proved.", "3/C07"),
  "C08": ("model_checking", "CrossHair: symbolic argument name through instantiate_name; solver-enumerated template/typedef shapes through instantiate_namespace against a Cartesian-product reference",
